@@ -24,7 +24,7 @@ import engine_util as eu  # noqa: E402
 
 LEVEL = "model_checking"
 
-OPS = ["Put", "Bcast", "GC", "Epoch", "SetMode", "FailPut"]
+OPS = ["Put", "Bcast", "GC", "Epoch", "SetMode", "FailPut", "EvacuateQ"]
 MODES = ["rw", "ro", "dro"]
 
 
@@ -34,12 +34,12 @@ def run(ck):
     jobs = []
     if not skip_model:
         if thorough:
-            for cfg in ("Engine_c08_thorough.cfg", "Engine_c08_thorough_fixed.cfg", "Engine_c08_thorough3.cfg"):
+            for cfg in ("Engine_c08_thorough.cfg", "Engine_c08_thorough_fixed.cfg", "Engine_c08_thorough3.cfg", "Engine_c08_evac.cfg"):
                 jobs.append(lambda cfg=cfg: ck.tlc_model("Engine", cfg, timeout=7200, workers=6))
             ck.setcov("constants", "2 shards: epochs 0..2 (lock expiry), modes rw/ro, 1 lock, 2 tombstones (repaired world: + degraded mode and put faults); "
                                    "3 shards: one shard flips rw/ro, 1 lock, 1 tombstone; <=2 broadcasts in flight, every visiting order")
         else:
-            for cfg in ("Engine_c08_quick.cfg", "Engine_c08_quick_fixed.cfg"):
+            for cfg in ("Engine_c08_quick.cfg", "Engine_c08_quick_fixed.cfg", "Engine_c08_evac.cfg"):
                 jobs.append(lambda cfg=cfg: ck.tlc_model("Engine", cfg, timeout=3000, workers=4))
             ck.setcov("constants", "2 shards, modes rw/ro, 1 object, 1 lock, 1 tombstone, <=2 broadcasts in flight")
         ck.setcov("exhaustive", True)
@@ -50,7 +50,9 @@ def run(ck):
         # the model's own shortest replayable histories for the listed finding and for decisive branches:
         #   H6 without any fault (LOCK || TOMBSTONE), H6 with a lock put failing on a read-only shard,
         #   a second tombstone refused although the target already carries a garbage mark, lock expiry
-        wit = [dict(scenario="H6", inflight=2)]
+        # + an evacuation that has to move a LOCK together with its target (the lock lives on the evacuated shard only)
+        wit = [dict(scenario="H6", inflight=2),
+               dict(scenario="ev-lock-travels", ops=("Put", "Bcast", "SetMode", "EvacuateQ"), inflight=1)]
         if thorough:
             wit += [dict(scenario="second-tombstone", cat="c08x", inflight=2), dict(scenario="H6seq", inflight=1), dict(scenario="lock-refused", inflight=2),
                     dict(scenario="lock-expired", ops=("Put", "Bcast", "GC", "Epoch"), maxepoch=2, inflight=1),
